@@ -126,7 +126,7 @@ CHECKS = {
         note="Bounded models (<=3 request ids, <=6 ops exported, <=7 ops invariants-only; budgets in the cfg files); InMemoryWalStore only (filesystem store is C10/C11); crash = coordinator dropped, store kept, uncommitted frame kept or lost; BLAKE3 collision-freeness.",
         design="9.4 C17"),
     "C09": dict(
-        technique="TLC model checking of Runtime.tla/MC_C09.tla (SuperTick transcribed operationally with checkpoint/rollback/fault records/recovery; bounded scenario generator over topologies, failure kinds, failing positions and passes) + spec->impl replay of every behaviour into the real WorldlineRuntime/SchedulerCoordinator/ProvenanceService/Engine with full Debug fingerprints around every pass",
+        technique="TLC model checking of Runtime.tla/MC_C09.tla (SuperTick transcribed operationally with checkpoint/rollback/fault records/recovery; bounded scenario generator over topologies, failure kinds, failing positions and passes) + spec->impl replay of every behaviour into the real WorldlineRuntime/SchedulerCoordinator/ProvenanceService/Engine with full Debug fingerprints around every pass + kernel-port leg: TLC over KernelPort.tla/MC_KernelPort.tla (dispatch / Start with cycle limits / Stop / SetHeadEligibility / reads on the host-facing WarpKernel; every transition and every bounded behaviour) replayed into the real warp-wasm kernel compiled from source",
         text="TLC explores every behaviour of a generator over 1..3 worldlines x 1..4 writer heads (every shape up to 6 heads), up to 3 passes, a special aimed at every head before every pass (executor panic, undeclared write/read, foreign-instance op, inapplicable op => typed engine error, frontier/global tick at MAX, provenance append rejection after the engine commit, receipt-correlation conflict after the head's commit, lawful footprint conflict, dormant head) and the operator reactions none / resolve / repair+resolve / double resolve; "
              "invariants: a failed pass changes only fault evidence, success advances each committed worldline by one per commit and the global tick by one, canonical head order, quarantined heads skipped, head-scoped faults never block other heads, lawful rejections are receipts. Every behaviour is replayed action by action into the real runtime with a failure-injecting command rule; after every action the projection is compared, and after every failed pass the Debug fingerprint of runtime + provenance + engine scratch must equal the pre-pass one outside "
              "the masked fault-evidence fields. The property is decided on the real outcome.",
